@@ -653,3 +653,135 @@ Proof.
   intros Hin E. pose proof spec_covered as H. rewrite forallb_forall in H. specialize (H w Hin).
   rewrite <- E in H. rewrite goify_not_reserved_lemma in H. discriminate.
 Qed.
+
+(* ---------- Go type names over the name scope ---------- *)
+
+Lemma exec_app s a b : exec s (a ++ b) = exec (exec s a) b.
+Proof. revert s; induction a as [|o a IH]; intro s; simpl; [reflexivity|apply IH]. Qed.
+
+Section TypeNames.
+  Variable g : str -> str.
+
+  (* GoTypeName changes the scope exactly as the HashedUnique calls of the type's user types do *)
+  Lemma go_type_name_scope t : forall s, snd (go_type_name g s t) = exec s (type_ops g t).
+  Proof.
+    induction t as [p|e IH|k IHk e IHe|h n o]; intro s; simpl.
+    - reflexivity.
+    - specialize (IH s). destruct (go_type_name g s e) as [x s1]. simpl in *. exact IH.
+    - specialize (IHk s). destruct (go_type_name g s k) as [xk s1]. simpl in IHk. subst s1.
+      specialize (IHe (exec s (type_ops g k))). destruct (go_type_name g (exec s (type_ops g k)) e) as [xe s2]. simpl in *.
+      rewrite exec_app. exact IHe.
+    - destruct (hashed_unique s h (g n) (Some [])) as [x s1]; reflexivity.
+  Qed.
+
+  Lemma go_type_ref_scope t s : snd (go_type_ref g s t) = snd (go_type_name g s t).
+  Proof. unfold go_type_ref. destruct (go_type_name g s t); reflexivity. Qed.
+
+  Lemma go_type_name_inv t s : inv s -> inv (snd (go_type_name g s t)).
+  Proof. intro I. rewrite go_type_name_scope. apply (exec_spec (type_ops g t) s I). Qed.
+
+  (* the name rendered for a user type is the one the scope remembers for its hash *)
+  Lemma user_type_name_bound s h n o x s' :
+    inv s -> go_type_name g s (TUser h n o) = (x, s') -> lookup h (names s') = Some x /\ has x (counts s').
+  Proof.
+    intros I H. simpl in H.
+    pose proof (step_spec s (OHashed h (g n) (Some [])) x s' I H) as (_ & _ & _ & _ & Ha & Hb & _).
+    split; [exact Hb|apply Ha; reflexivity].
+  Qed.
+
+  (* a whole sequence of GoTypeName / GoTypeRef calls ends in the scope of its HashedUnique calls *)
+  Lemma run_types_scope calls : forall s,
+    fold_left (fun s (c : bool * ty) => snd (go_type_name g s (snd c))) calls s = exec s (flat_map (fun c : bool * ty => type_ops g (snd c)) calls).
+  Proof.
+    induction calls as [|[r t] rest IH]; intro s; simpl; [reflexivity|].
+    rewrite exec_app, <- go_type_name_scope. apply IH.
+  Qed.
+
+  (* FULL: in the scope reached by any sequence of type-name calls, two user types (hashes) never share a Go name *)
+  Lemma type_names_injective_lemma calls h1 h2 n :
+    lookup h1 (names (types_scope g calls)) = Some n ->
+    lookup h2 (names (types_scope g calls)) = Some n -> h1 = h2.
+  Proof.
+    unfold types_scope. destruct (exec_spec (flat_map (fun c : bool * ty => type_ops g (snd c)) calls) empty_scope inv_empty) as ((_ & I2) & _).
+    apply I2.
+  Qed.
+
+  (* FULL: once a user type has a name, every later GoTypeName of that type (under any declared name, after any
+     other calls) answers that name *)
+  Lemma type_name_stable_lemma s h n ops n' o :
+    inv s -> lookup h (names s) = Some n ->
+    fst (go_type_name g (exec s ops) (TUser h n' o)) = n.
+  Proof.
+    intros I Hb. destruct (exec_spec ops s I) as (_ & _ & Hn & _).
+    simpl. unfold hashed_unique. rewrite (Hn _ _ Hb). reflexivity.
+  Qed.
+End TypeNames.
+
+(* --- what Unique can return, and that it keeps identifiers identifiers --- *)
+
+Lemma unique_shape s name suffix r s' :
+  unique s name suffix = (r, s') ->
+  let base := name ++ match suffix with Some sf => sf | None => [] end in
+  r = name \/ r = base \/ exists j, r = base ++ itoa j.
+Proof.
+  intros H base.
+  assert (Hgo : forall c2, match find_free base c2 (S (length (counts s))) (counts s) with
+                           | Some ret => take s ret | None => (base, s) end = (r, s') ->
+                           r = name \/ r = base \/ exists j, r = base ++ itoa j).
+  { intro c2. destruct (find_free base c2 (S (length (counts s))) (counts s)) as [ret|] eqn:E.
+    - apply find_free_some in E as [_ [j Ej]]. unfold take. intro X; injection X as <- _. right; right. exists j. exact Ej.
+    - intro X; injection X as <- _. right; left; reflexivity. }
+  unfold unique in H. destruct (lookup name (counts s)) as [c|] eqn:E.
+  - destruct suffix as [sf|].
+    + destruct (lookup (name ++ sf) (counts s)) as [c2|] eqn:E2.
+      * apply (Hgo c2). exact H.
+      * unfold take in H. injection H as <- _. right; left; reflexivity.
+    + specialize (Hgo c). unfold base in Hgo |- *. rewrite List.app_nil_r in Hgo |- *. apply Hgo. exact H.
+  - unfold take in H. injection H as <- _. left; reflexivity.
+Qed.
+
+Lemma uint_bytes_digits d : Forall (fun c => (48 <=? c) && (c <=? 57) = true) (uint_bytes d).
+Proof. induction d; simpl; constructor; try reflexivity; assumption. Qed.
+
+Lemma itoa_digits j : Forall (fun c => (48 <=? c) && (c <=? 57) = true) (itoa j).
+Proof. apply uint_bytes_digits. Qed.
+
+Section IdentKept.
+  Variables is_letter is_digit : rune -> bool.
+  Hypothesis Hdig : forall c, (48 <=? c) && (c <=? 57) = true -> is_digit c = true.
+
+  Lemma ident_app_tail w t :
+    go_ident is_letter is_digit w = true ->
+    Forall (fun c => go_letter is_letter c || is_digit c = true) t ->
+    go_ident is_letter is_digit (w ++ t) = true.
+  Proof.
+    destruct w as [|c r]; [discriminate|]. simpl. intros H Ht. apply andb_true_iff in H as [H1 H2].
+    rewrite H1. simpl. rewrite forallb_app. unfold rune in *. rewrite H2. simpl.
+    apply forallb_forall. intros x Hx. rewrite Forall_forall in Ht. apply Ht. exact Hx.
+  Qed.
+
+  Lemma digits_tail j : Forall (fun c => go_letter is_letter c || is_digit c = true) (itoa j).
+  Proof.
+    pose proof (itoa_digits j) as H. induction H as [|c l Hc _ IH]; constructor; [|assumption].
+    rewrite (Hdig c Hc). apply orb_true_r.
+  Qed.
+
+  (* Unique (hence HashedUnique on a miss) turns an identifier into an identifier *)
+  Lemma unique_keeps_identifier s name suffix r s' :
+    unique s name suffix = (r, s') ->
+    go_ident is_letter is_digit name = true ->
+    (forall sf, suffix = Some sf -> Forall (fun c => go_letter is_letter c || is_digit c = true) sf) ->
+    go_ident is_letter is_digit r = true.
+  Proof.
+    intros H Hn Hs. destruct (unique_shape _ _ _ _ _ H) as [->|[->|[j ->]]]; [assumption| |].
+    - destruct suffix as [sf|]; [apply ident_app_tail; [assumption|apply Hs; reflexivity]|rewrite List.app_nil_r; assumption].
+    - apply ident_app_tail; [|apply digits_tail].
+      destruct suffix as [sf|]; [apply ident_app_tail; [assumption|apply Hs; reflexivity]|rewrite List.app_nil_r; assumption].
+  Qed.
+
+  Lemma unique_keeps_first s name suffix r s' c0 rest :
+    unique s name suffix = (r, s') -> name = c0 :: rest -> exists rest', r = c0 :: rest'.
+  Proof.
+    intros H ->. destruct (unique_shape _ _ _ _ _ H) as [->|[->|[j ->]]]; simpl; eexists; reflexivity.
+  Qed.
+End IdentKept.
